@@ -94,6 +94,9 @@ async def _instance_with_writer(idx, inst, reader, log, outs, traveller):
     api = cls("127.0.0.%d" % (idx + 1), inst["did"], inst["key"])
     await api.connect()
     for op in inst["ops"]:
+        if op.get("reconnect"):         # the same api OBJECT disconnected and connected again before this operation
+            await api.disconnect()
+            await api.connect()
         reader.replies = [bytes.fromhex(r) if r != "-" else b"" for r in op["replies"]]
         before = len(log)
         traveller.move_to(float(op["now"]))
